@@ -211,6 +211,27 @@ impl MapViews {
             drop(map);
             let left = regions_of(data_path);
             if !left.is_empty() { stats.probe("mapping left behind after drop (judged by C18, not here)"); }
+            // A string some other writer got wrong: its bytes are all there but are not UTF-8. Loading refuses it
+            // (InvalidData); a view that exposes "exactly what loading would give" cannot call it absent or valid.
+            if bytes.len() < (1 << 20) {
+                if let Some(i) = (0..vals.len()).find(|i| matches!(&self.payloads[*i].leaf, Leaf::Str(c) if c.len >= 1) && self.payloads[*i].none_at.is_none()) {
+                    let at = 8 * (ledger[i] + self.payloads[i].opt as usize + 1);
+                    let mut bad = bytes.to_vec();
+                    bad[at] = 0xFF;
+                    let mut tail = &bad[8 * ledger[i]..];
+                    if vals[i].load_slice(&mut tail).is_err() {
+                        std::fs::write(data_path, &bad).map_err(|e| v("harness", "write", e.to_string()))?;
+                        let map = MemoryMap::new(path, MappingMode::ReadOnly).map_err(|e| v("map-error", "MemoryMap::new", e.to_string()))?;
+                        match catch(|| vals[i].view(&map, ledger[i])) {
+                            Ok(ViewResult::Refused(_)) => stats.probe("view of a string that is not UTF-8 refused, as loading refuses it"),
+                            Ok(other) => return Err(v("view-of-unloadable", vals[i].type_name(), format!("structure {} ({}) holds bytes that are not UTF-8: loading fails, the view says {:?}", i, desc(i), other))),
+                            Err(p) => return Err(v("view-panic", vals[i].type_name(), format!("structure {} ({}) with invalid UTF-8: {}", i, desc(i), p))),
+                        }
+                        drop(map);
+                        std::fs::write(data_path, bytes).map_err(|e| v("harness", "write", e.to_string()))?;
+                    }
+                }
+            }
         }
 
         // Torn files.
@@ -318,6 +339,7 @@ fn empty_variant(leaf: &crate::payload::Leaf) -> crate::payload::Leaf {
         Leaf::VecU64(c) => Leaf::VecU64(e(c)),
         Leaf::VecUsize(c) => Leaf::VecUsize(e(c)),
         Leaf::VecPair(c) => Leaf::VecPair(e(c)),
+        Leaf::VecTriple(c) => Leaf::VecTriple(e(c)),
         Leaf::Bytes(c) => Leaf::Bytes(e(c)),
         Leaf::Str(c) => Leaf::Str(e(c)),
         Leaf::Raw { c, route } => Leaf::Raw { c: e(c), route: *route },
@@ -381,6 +403,13 @@ pub struct MapLife {
     /// decoy with the lossy spelling of the name and other content exists as well.
     #[serde(default)]
     pub odd_names: bool,
+    /// Somebody else (another open file description) holds an exclusive advisory lock on every plain file.
+    #[serde(default)]
+    pub locked: bool,
+    /// The files are named `<base>/a/link/../life-N` where `link` is a symbolic link to the directory `<base>/b/c`:
+    /// the operating system resolves that to `<base>/b/life-N`; a decoy `<base>/a/life-N` with other content exists.
+    #[serde(default)]
+    pub dotdot_link: bool,
 }
 
 /// Drops a live map, either normally or by letting an unrelated panic unwind through the scope that owns it.
@@ -445,7 +474,7 @@ impl MapLife {
             };
             ops.push(op);
         }
-        MapLife { files, ops, cwd_removed: rng.chance(1, 10), cwd_absolute: rng.bool(), unwind_drops: rng.chance(1, 5), odd_names: rng.chance(1, 12) }
+        MapLife { files, ops, cwd_removed: rng.chance(1, 10), cwd_absolute: rng.bool(), unwind_drops: rng.chance(1, 5), odd_names: rng.chance(1, 12), locked: rng.chance(1, 10), dotdot_link: rng.chance(1, 12) }
     }
 
     pub fn run(&self, prop: &str) -> Outcome {
@@ -461,7 +490,21 @@ impl MapLife {
             } else { let _ = std::env::set_current_dir(scratch::dir()); (self.files.iter().map(|_| scratch::file("life")).collect(), None) }
         } else { (self.files.iter().map(|_| scratch::file("life")).collect(), None) };
         let mut decoys: Vec<PathBuf> = Vec::new();
-        let paths: Vec<PathBuf> = if self.odd_names {
+        let mut map_override: Option<Vec<PathBuf>> = None;
+        let mut dd_base: Option<PathBuf> = None;
+        let paths: Vec<PathBuf> = if self.dotdot_link && base.is_none() {
+            let b = scratch::file("dd");
+            let ok = std::fs::create_dir_all(b.join("a")).is_ok() && std::fs::create_dir_all(b.join("b").join("c")).is_ok() && std::os::unix::fs::symlink(b.join("b").join("c"), b.join("a").join("link")).is_ok();
+            if ok {
+                out.stats.probe("path with .. after a symbolic link to a directory");
+                let real: Vec<PathBuf> = (0..self.files.len()).map(|i| b.join("b").join(format!("life-{}", i))).collect();
+                map_override = Some((0..self.files.len()).map(|i| b.join("a").join("link").join("..").join(format!("life-{}", i))).collect());
+                for i in 0..self.files.len() { let d = b.join("a").join(format!("life-{}", i)); if std::fs::write(&d, vec![0x5Au8; 24]).is_ok() { decoys.push(d); } }
+                dd_base = Some(b);
+                real
+            } else { let _ = std::fs::remove_dir_all(&b); paths }
+        } else { paths };
+        let paths: Vec<PathBuf> = if self.odd_names && map_override.is_none() {
             use std::os::unix::ffi::{OsStrExt, OsStringExt};
             out.stats.probe("file names that are not UTF-8");
             paths.iter().enumerate().map(|(i, p)| {
@@ -475,13 +518,14 @@ impl MapLife {
                 odd
             }).collect()
         } else { paths };
-        let r = self.run_inner(prop, &paths, base.is_some() && !self.cwd_absolute, &mut out.stats);
+        let r = self.run_inner(prop, &paths, base.is_some() && !self.cwd_absolute, map_override, &mut out.stats);
+        if let Some(b) = dd_base { for p in paths.iter() { let _ = std::fs::remove_file(p); let _ = std::fs::remove_dir(p); } let _ = std::fs::remove_dir_all(&b); }
         if let Some(b) = base { let _ = std::env::set_current_dir(scratch::dir()); for p in paths.iter() { let _ = std::fs::remove_file(p); let _ = std::fs::remove_dir(p); } let _ = std::fs::remove_dir_all(&b); }
         for p in paths.iter().chain(decoys.iter()) { let _ = std::fs::remove_file(p); let _ = std::fs::remove_dir(p); }
         match r { Ok(()) => out, Err(viol) => out.fail(viol) }
     }
 
-    fn run_inner(&self, prop: &str, paths: &[PathBuf], relative: bool, stats: &mut Stats) -> Result<(), Violation> {
+    fn run_inner(&self, prop: &str, paths: &[PathBuf], relative: bool, map_override: Option<Vec<PathBuf>>, stats: &mut Stats) -> Result<(), Violation> {
         let v = |clause: &str, site: &str, msg: String| Violation::new(prop, clause, site, msg);
         // The address-space oracle needs /proc/self/maps; without it nothing can be judged.
         if !std::fs::read("/proc/self/maps").map(|t| t.iter().filter(|b| **b == b'\n').count() > 3).unwrap_or(false) {
@@ -491,7 +535,8 @@ impl MapLife {
         let mut model: Vec<Option<Vec<u8>>> = Vec::new();
         let mut sparse_len: Vec<Option<u64>> = Vec::new();
         // What is passed to MemoryMap::new (differs from `paths`, the name in /proc/self/maps, for unlinked files).
-        let mut map_paths: Vec<PathBuf> = if relative { paths.iter().map(|p| PathBuf::from("..").join(p.file_name().unwrap())).collect() } else { paths.to_vec() };
+        let mut map_paths: Vec<PathBuf> = if let Some(m) = map_override { m } else if relative { paths.iter().map(|p| PathBuf::from("..").join(p.file_name().unwrap())).collect() } else { paths.to_vec() };
+        let mut lock_holders: Vec<std::fs::File> = Vec::new();
         let mut held: Vec<Option<std::fs::File>> = Vec::new();
         let mut busy = BusyGuard(Vec::new());
         for (i, f) in self.files.iter().enumerate() {
@@ -525,6 +570,10 @@ impl MapLife {
                 FileSpec::Size(n) => {
                     let c = crate::content::Content::new(*n as usize, crate::content::Pat::Random, 17 + i as u64).bytes();
                     std::fs::write(&paths[i], &c).map_err(|e| v("harness", "write", e.to_string()))?;
+                    if self.locked {
+                        use std::os::fd::AsRawFd;
+                        if let Ok(h) = std::fs::File::open(&paths[i]) { if unsafe { libc::flock(h.as_raw_fd(), libc::LOCK_EX | libc::LOCK_NB) } == 0 { lock_holders.push(h); stats.probe("file under somebody else's exclusive advisory lock"); } }
+                    }
                     model.push(Some(c)); sparse_len.push(None);
                 },
                 FileSpec::ReadOnly(n) => {
@@ -653,6 +702,8 @@ impl MapLife {
                         (Err(_), Some(_)) => { slots.push(None); stats.probe("map creation failed loudly"); },
                         // A running program's file cannot be opened for writing: refusing the mutable map is the loud answer.
                         (Err(_), None) if busy_text && *mutable => { slots.push(None); stats.probe("mutable map of a busy executable refused"); },
+                        // Advisory locks bind nobody, but honouring one is not a wrong answer; leaving the file mapped is (checked below).
+                        (Err(_), None) if self.locked && !lock_holders.is_empty() => { slots.push(None); stats.probe("map of a file locked by somebody else refused"); },
                         (Err(_), None) if matches!(self.files[*file], FileSpec::ReadOnly(_)) && *mutable => { slots.push(None); stats.probe("mutable map of a write-protected file refused"); },
                         (Err(e), None) => return Err(v("map-error", "MemoryMap::new", format!("{}: mapping a healthy file ({:?}) failed: {}", step, self.files[*file], e))),
                         (Ok(m), None) => {
@@ -751,6 +802,7 @@ impl MapLife {
         stats.sigs.insert(sig);
         drop(busy);
         drop(held);
+        drop(lock_holders);
         let _ = BTreeMap::<u8, u8>::new();
         Ok(())
     }
@@ -760,6 +812,8 @@ impl MapLife {
         if self.cwd_removed { let mut s = self.clone(); s.cwd_removed = false; out.push(s); }
         if self.unwind_drops { let mut s = self.clone(); s.unwind_drops = false; out.push(s); }
         if self.odd_names { let mut s = self.clone(); s.odd_names = false; out.push(s); }
+        if self.locked { let mut s = self.clone(); s.locked = false; out.push(s); }
+        if self.dotdot_link { let mut s = self.clone(); s.dotdot_link = false; out.push(s); }
         for i in 0..self.ops.len() {
             // Removing a Map op shifts slot numbers; renumber the references.
             let mut s = self.clone();
